@@ -71,6 +71,7 @@ type obs struct {
 	terr                                     error
 	doneTimeout, ctxTimeout, driverRecovered bool
 	preEntered                               int
+	chain                                    []chainObs
 	unwindOpen                               []string
 	unwindChecked                            int
 }
@@ -85,7 +86,7 @@ func (st *reqState) snapshot() obs {
 		methodCalls: st.methodCalls, ctrlID: st.ctrlID, ctrlSvc: st.ctrlSvc, ctrlScope: st.ctrlScope, ctrlEarly: st.ctrlEarly,
 		scopeErrH: st.scopeErrH, resErrH: st.resErrH, panicH: st.panicH, propagated: st.propagated, propVal: st.propVal,
 		status: st.status, terr: st.terr, doneTimeout: st.doneTimeout, ctxTimeout: st.ctxTimeout, driverRecovered: st.driverRecovered,
-		preEntered: st.preEntered, unwindOpen: append([]string(nil), st.unwindOpen...), unwindChecked: st.unwindChecked,
+		preEntered: st.preEntered, chain: append([]chainObs(nil), st.chain...), unwindOpen: append([]string(nil), st.unwindOpen...), unwindChecked: st.unwindChecked,
 	}
 }
 
@@ -313,6 +314,23 @@ func (cs *caseState) checkRequest(st *reqState) (fs []finding, inconclusive stri
 		}
 		if cs.appSvc != nil && cs.appSvc.closes.Load() != 0 {
 			add("app-scope-closed", p.Exit, "after the request the application scope's own scoped instance has %d Close event(s)", cs.appSvc.closes.Load())
+		}
+	}
+
+	// ---- every Handle wrapper of a chain resolves its controller itself: two wrappers of one
+	// TRANSIENT controller type in front of the route see two different instances, both built in
+	// the request's scope (and both wired to the request's scoped service) ----
+	if len(ob.chain) > 0 {
+		if len(ob.chain) != 2 {
+			add("handle-chain", p.Exit, "the two chained Handle wrappers invoked their controller method %d time(s)", len(ob.chain))
+		} else {
+			a, b := ob.chain[0], ob.chain[1]
+			if a.id == b.id {
+				add("handle-chain-shares-transient-controller", p.Exit, "both chained Handle wrappers were given the same instance (%d) of the transient controller", a.id)
+			}
+			if sc != nil && (a.scope != sc || b.scope != sc) {
+				add("handle-chain", p.Exit, "a chained Handle wrapper resolved its controller from a scope that is not the request's")
+			}
 		}
 	}
 
